@@ -130,6 +130,7 @@ fn msg_kind(m: &Msg) -> i64 {
 // harness engine (copied from replica.rs; blocks are persisted as soon as they are queued)
 
 struct EngineInner {
+    rank: usize,
     genesis: validator::Genesis,
     persisted: sync::watch::Sender<BlockStoreState>,
     blocks: Mutex<Vec<validator::Block>>,
@@ -207,7 +208,8 @@ impl EngineInterface for Engine {
         }
     }
     async fn propose_payload(&self, _ctx: &ctx::Ctx, n: validator::BlockNumber) -> ctx::Result<validator::Payload> {
-        Ok(payload(100 + (n.0 % 100) as i64))
+        // depends on the proposer (Model.Sim.propose_payload)
+        Ok(payload(100 + (n.0 % 20) as i64 + 20 * (self.0.rank % 16) as i64))
     }
     async fn get_state(&self, _ctx: &ctx::Ctx) -> ctx::Result<validator::ReplicaState> {
         Ok(self.0.state.lock().unwrap().clone())
@@ -745,6 +747,7 @@ async fn run_case(c: &Value, progress: Arc<AtomicUsize>, next_op: &mut dyn FnMut
         let nctx = ctx::test_root(&clock);
         let (out_send, out_recv) = ctx::channel::unbounded();
         let engine = Engine(Arc::new(EngineInner {
+            rank,
             genesis: genesis.clone(),
             persisted: sync::watch::channel(BlockStoreState { first: first_block, last: None }).0,
             blocks: Mutex::default(),
@@ -1088,6 +1091,7 @@ async fn run_live(c: &Value, progress: Arc<AtomicUsize>) -> Value {
         let nctx = ctx::test_root(&clock);
         let (out_send, out_recv) = ctx::channel::unbounded();
         let engine = Engine(Arc::new(EngineInner {
+            rank,
             genesis: genesis.clone(),
             persisted: sync::watch::channel(BlockStoreState { first: first_block, last: None }).0,
             blocks: Mutex::default(),
